@@ -58,3 +58,9 @@ Definition flox_quantile (skipna : bool) (qn qd : Z) (groups : list (list Z)) (n
 
 Definition spec_quantile (skipna : bool) (qn qd : Z) (groups : list (list Z)) (nans : list Z) : list xq :=
   map (fun vn => np_quantile skipna qn qd (fst vn) (snd vn)) (combine groups nans).
+
+(* a VECTOR of q: quantile_ broadcasts q over a new leading axis; row i of the result is the quantile for q_i, in the order given *)
+Definition flox_quantile_vec (skipna : bool) (qs : list (Z * Z)) (groups : list (list Z)) (nans : list Z) : list (list xq) :=
+  map (fun q => flox_quantile skipna (fst q) (snd q) groups nans) qs.
+Definition spec_quantile_vec (skipna : bool) (qs : list (Z * Z)) (groups : list (list Z)) (nans : list Z) : list (list xq) :=
+  map (fun q => spec_quantile skipna (fst q) (snd q) groups nans) qs.
